@@ -174,8 +174,11 @@ class PolygonPixelRegion(PixelRegion):
         """
         from matplotlib.patches import Polygon
 
-        xy = np.vstack([self.vertices.x - origin[0],
-                        self.vertices.y - origin[1]]).transpose()
+        # subtract in float so that narrow or unsigned integer vertex
+        # arrays cannot wrap around
+        xy = np.vstack([np.subtract(self.vertices.x, origin[0], dtype=float),
+                        np.subtract(self.vertices.y, origin[1], dtype=float)
+                        ]).transpose()
 
         mpl_kwargs = self.visual.define_mpl_kwargs(self._mpl_artist)
         mpl_kwargs.update(kwargs)
